@@ -180,6 +180,7 @@ Definition set_bases (c : comp) (b : list (string * bseq)) : comp :=
 Definition add_sequence (c : comp) (name : string) (ps : list part) (len : option nat) : res comp :=
   if is_anon name then Err "reserved-name" else
   if seq_defined c name then Err "duplicate-sequence" else
+  if ahas (c_structs c) name then Err "name-of-a-structure" else
   match get_length_const len ps with
   | WOk l k => OK (set_bases c (c_bases c ++ [(name, {| b_len := l; b_const := k; b_anon := false |})]))
   | WWild => Err "wildcard-without-length"
@@ -190,6 +191,7 @@ Definition add_super_sequence (c : comp) (ctr : nat) (name : string) (items : li
   : res (comp * nat) :=
   if is_anon name then Err "reserved-name" else
   if seq_defined c name then Err "duplicate-sequence" else
+  if ahas (c_structs c) name then Err "name-of-a-structure" else
   do const <- clean_const c items;
   do r <- build_super c ctr const len;
   let '(s, anons, ctr') := r in
@@ -221,6 +223,8 @@ Fixpoint find_strands (c : comp) (names : list string) : res (list strand) :=
 Definition add_structure (c : comp) (opt : nat) (name : string) (names : list string) (domain : bool) (s0 : list sym)
   : res comp :=
   if ahas (c_structs c) name then Err "duplicate-structure" else
+  if is_anon name then Err "reserved-name" else
+  if seq_defined c name then Err "name-of-a-sequence" else
   do ts <- find_strands c names;
   do s <- (if domain then domain_expand s0 (map (fun t => map (ref_len c) (s_seqs (t_sup t))) ts) else OK s0);
   if structure_ok s (map (fun t => s_len (t_sup t)) ts) then
